@@ -1015,8 +1015,9 @@ class TreeRun:
         ent = wd.entity(uid)
         self.parents.add(uid)
         existing = [c for c in wd.nodes[uid]["children"] if wd.nodes.get(c, {}).get("cls") == "CommentsData"]
-        if existing:
-            self.targets.add(existing[0])
+        for c in existing:
+            # (a copied comments data may sit next to the original: whichever the library appends to is a target)
+            self.targets.add(c)
         self.call("CommentsData", ent.add_comment, op["text"], author="vp")
         comments = ent.comments
         if comments is None:
@@ -1059,6 +1060,8 @@ class TreeRun:
         depths = np.asarray(sorted(op["depths"]), dtype=float) / 2.0
         values = np.asarray((list(op["vals"]) * 2)[: len(depths)], dtype=float)
         self.targets.add(uid)
+        for c in wd.nodes[uid]["children"]:
+            self.targets.add(c)  # DEPTH and the earlier logs are re-sorted / padded with the new vertices
         self.call("Drillhole", ent.add_data, {name: {"depth": depths, "values": values}})
         parent_uid = wd.nodes[uid]["parent"]
         wd.nodes[uid] = snap_entity(ent)
